@@ -369,6 +369,31 @@ def m_refcell_replace(I, fr, a, ck):
     return st.content
 
 
+def m_refcell_take(I, fr, a, ck):
+    """RefCell::take: returns the content and leaves Default::default() behind"""
+    rc = _refcell_of(I, fr, a[0])
+    st = fr.mem[rc.cell]
+    if st.borrow != 0:
+        return Outs([panic(True, 'RefCell already borrowed')])
+    old = st.content
+    if isinstance(old, RcV) and isinstance(old.inner, Adt) and old.inner.ty == 'BDD':
+        new = mk_rc(mk('BDD', 0, []), I.cfg['rc_new_owned'])       # #[default] False
+    elif isinstance(old, Seq):
+        new = Seq(())
+    elif isinstance(old, MapV):
+        new = MapV(())
+    elif isinstance(old, Str):
+        new = Str('')
+    elif isinstance(old, Adt) and old.ty == 'Option':
+        new = NONE
+    else:
+        raise Unsupported('RefCell::take of %s' % type(old).__name__)
+    m = dict(fr.mem)
+    m[rc.cell] = CellState(new, 0)
+    fr.mem = m
+    return old
+
+
 def m_guard_deref(I, fr, a, ck):
     g = I.peel_all(a[0], fr)
     if not isinstance(g, BorrowGuard):
@@ -1275,6 +1300,7 @@ def register_all(M):
     A('RefCell', None, 'borrow', m_refcell_borrow)
     A('RefCell', None, 'borrow_mut', m_refcell_borrow_mut)
     A('RefCell', None, 'replace', m_refcell_replace)
+    A('RefCell', None, 'take', m_refcell_take)
     A('Ref', 'Deref', 'deref', m_guard_deref)
     A('RefMut', 'Deref', 'deref', m_guard_deref)
     A('RefMut', 'DerefMut', 'deref_mut', m_guard_deref_mut)
@@ -2436,8 +2462,48 @@ def m_entry_or_insert(I, fr, a, ck):
     raise Unsupported('HashMap entry API is not modelled')
 
 
+def m_binary_search(I, fr, a, ck):
+    """core's slice::binary_search_by, step for step (the list need not be sorted: the answer is whatever the
+    algorithm computes): size halves, base moves to mid unless elem[mid] > target."""
+    s = _seq(I, fr, a[0])
+    target = I.peel_all(a[1], fr)
+    n = len(s.items)
+    if n == 0:
+        return mk('Result', 1, [0])
+    cmp_at = {}
+
+    def cmp(i):
+        if i not in cmp_at:
+            o, pans = ordering_of(I, fr, s.items[i], target)
+            if pans:
+                raise Unsupported('binary_search: comparison may panic')
+            g = lambda k: o.alts[k][0] if k in o.alts else False
+            cmp_at[i] = (g(0), g(1), g(2))
+        return cmp_at[i]
+    states = {0: True}
+    size = n
+    while size > 1:
+        half = size // 2
+        new = {}
+        for base, g in states.items():
+            mid = base + half
+            gt = cmp(mid)[2]
+            for b2, g2 in ((base, gand(g, gt)), (mid, gand(g, gnot(gt)))):
+                if not g_false(g2):
+                    new[b2] = gor(new.get(b2, False), g2)
+        states = new
+        size -= half
+    res = None
+    for base, g in states.items():
+        lt, eq, gt = cmp(base)
+        v = merge(eq, mk('Result', 0, [base]), merge(lt, mk('Result', 1, [base + 1]), mk('Result', 1, [base])))
+        res = v if res is None else merge(g, v, res)
+    return res
+
+
 def register_batch3(M):
     A = M.add
+    A('slice', None, 'binary_search', m_binary_search)
     A('mem', None, 'swap', m_mem_swap)
     A('mem', None, 'replace', m_mem_replace)
     A('mem', None, 'take', m_mem_take)
